@@ -69,7 +69,7 @@ impl HBw {
     }
 }
 #[cfg(not(kani))]
-fn sor_picture(tr: u8, w: u8, h: u8, ptype: u32, dc: u8, bad: u8, intra_in_p: bool) -> Vec<u8> {
+fn sor_picture(tr: u8, w: u8, h: u8, ptype: u32, dc: u8, bad: u8, intra_in_p: bool, stuff: u8) -> Vec<u8> {
     let mut b = HBw { buf: Vec::new(), pos: 0 };
     b.put(1, 17);
     b.put(0, 5);
@@ -83,6 +83,15 @@ fn sor_picture(tr: u8, w: u8, h: u8, ptype: u32, dc: u8, bad: u8, intra_in_p: bo
     b.put(0, 1);
     let n = ((w as usize + 15) / 16) * ((h as usize + 15) / 16);
     for k in 0..n {
+        // stuffing code words (MCBPC 0000 0000 1; after COD = 0 in predicted pictures) before the last macroblock: they are not macroblocks
+        if k == n - 1 && bad == 0 {
+            for _ in 0..stuff {
+                if ptype != 0 {
+                    b.put(0, 1);
+                }
+                b.put(1, 9);
+            }
+        }
         if ptype == 0 {
             b.put(1, 1); // MCBPC: INTRA, no chroma coefficients
             b.put(0b0011, 4); // CBPY: no luma coefficients
@@ -122,6 +131,7 @@ fn h_history_dyn(s: &mut RSrc) {
     let mut ok_last = true;
     let mut ok_err = true;
     let mut ok_acc = true;
+    let mut ok_one = true;
     for _ in 0..steps {
         let op = s.u8() % 8;
         let tr = match s.u8() % 4 {
@@ -146,7 +156,15 @@ fn h_history_dyn(s: &mut RSrc) {
                 }
             };
             let intra_in_p = ptype != 0 && bad == 0 && s.bool();
-            let data = sor_picture(tr, w, h, ptype, dc, bad, intra_in_p);
+            let stuff = if s.u8() % 4 == 0 { 1 + s.u8() % 2 } else { 0 };
+            let mut data = sor_picture(tr, w, h, ptype, dc, bad, intra_in_p, stuff);
+            // sometimes a second picture follows in the same reader (C15: one call consumes exactly one picture)
+            let second = bad == 0 && s.u8() % 3 == 0;
+            let dc2 = 1 + s.u8() % 120;
+            let first_len = data.len();
+            if second {
+                data.extend_from_slice(&sor_picture(tr.wrapping_add(1), w, h, 0, dc2, 0, false, 0));
+            }
             let mut rd = H263Reader::from_source(&data[..]);
             let r = st.decode_next_picture(&mut rd);
             let n = w as usize * h as usize;
@@ -165,6 +183,26 @@ fn h_history_dyn(s: &mut RSrc) {
                     last = Some(p.clone());
                     if ptype != 2 {
                         reference = Some(p.clone());
+                    }
+                    if second {
+                        // the next call on the same reader must deliver the second picture, whole
+                        let r2 = st.decode_next_picture(&mut rd);
+                        let p2: Planes = (vec![dc2; n], vec![dc2; cn], vec![dc2; cn], tr.wrapping_add(1) as u16);
+                        let same = match st.get_last_picture() {
+                            Some(q) => {
+                                let (y, cb, cr) = q.as_yuv();
+                                y == &p2.0[..] && cb == &p2.1[..] && cr == &p2.2[..] && q.as_header().temporal_reference == p2.3
+                            }
+                            None => false,
+                        };
+                        if r2.is_err() || !same {
+                            ok_one = false;
+                        }
+                        last = Some(p2.clone());
+                        reference = Some(p2);
+                    } else {
+                        // nothing but (less than a byte of) stuffing is left: the next call finds no picture
+                        let _ = first_len;
                     }
                 }
                 (Err(_), None) => {
@@ -190,9 +228,58 @@ fn h_history_dyn(s: &mut RSrc) {
             _ => ok_last = false,
         }
     }
-    chk!(s, ok_acc, "state.history.accept_reject: valid pictures are accepted (predicted ones need a reference), invalid ones rejected");
-    chk!(s, ok_last, "state.history.last_and_reference: after every call the last picture is the last accepted one, and predicted pictures are copies of the last non-disposable picture");
-    chk!(s, ok_err, "state.history.err_keeps_reader: after a failed decode the reader delivers the same bits again");
+    chk!(s, ok_acc, "state.history.accept_reject: valid pictures (stuffing included) are accepted (predicted ones need a reference), invalid ones rejected [C04,C05,C15,C02,C03]");
+    chk!(s, ok_last, "state.history.last_and_reference: after every call the last picture is the last accepted one, a failed call changes nothing, and predicted pictures are copies of the last non-disposable picture [C04,C05,C03,C02]");
+    chk!(s, ok_err, "state.history.err_keeps_reader: after a failed decode the reader delivers the same bits again [C05]");
+    chk!(s, ok_one, "state.history.one_picture_per_call: with two pictures in one reader the first call decodes the first and the second call the second [C15]");
+    s.reach();
+}
+
+// native witness search for the size arithmetic of the decode loop (C01, C13): a Sorenson picture header with a 16-bit custom size, one
+// dimension drawn from the boundary values of u16 and the other small, followed by a few intra macroblocks (then end of data): the call
+// must return (Ok or Err) without panicking, and a picture it stores must have the plane sizes of its format
+#[cfg(not(kani))]
+fn h_dims_dyn(s: &mut RSrc) {
+    const EDGE: [u16; 16] = [0, 1, 2, 15, 16, 17, 31, 32, 33, 255, 256, 65519, 65520, 65521, 65534, 65535];
+    let big = EDGE[(s.u8() % 16) as usize];
+    let small = [0u16, 1, 8, 16, 17, 40][(s.u8() % 6) as usize];
+    let (w, h) = if s.bool() { (big, small) } else { (small, big) };
+    let nmb = (s.u8() % 4) as usize;
+    let dc = 1 + s.u8() % 120;
+    let mut b = HBw { buf: Vec::new(), pos: 0 };
+    b.put(1, 17);
+    b.put(0, 5);
+    b.put(3, 8);
+    b.put(1, 3); // size code 1: 16-bit custom width and height
+    b.put(w as u32, 16);
+    b.put(h as u32, 16);
+    b.put(0, 2);
+    b.put(0, 1);
+    b.put(5, 5);
+    b.put(0, 1);
+    for _ in 0..nmb {
+        b.put(1, 1);
+        b.put(0b0011, 4);
+        for _ in 0..6 {
+            b.put(dc as u32, 8);
+        }
+    }
+    b.align();
+    let mut st = H263State::new(DecoderOption::SORENSON_SPARK_BITSTREAM);
+    let mut rd = H263Reader::from_source(&b.buf[..]);
+    let r = st.decode_next_picture(&mut rd);
+    if r.is_ok() {
+        let ok = match st.get_last_picture() {
+            Some(p) => {
+                let (y, cb, cr) = p.as_yuv();
+                let cw = (w as usize + 1) / 2;
+                let ch = (h as usize + 1) / 2;
+                y.len() == w as usize * h as usize && cb.len() == cw * ch && cr.len() == cw * ch && p.chroma_samples_per_row() == cw
+            }
+            None => false,
+        };
+        chk!(s, ok, "state.dims.plane_sizes: a stored picture has luma w*h and chroma ceil(w/2)*ceil(h/2) [C13,C01]");
+    }
     s.reach();
 }
 
@@ -223,6 +310,7 @@ mod replay {
             "option_masks" => h_option_masks(r),
             "bitflags_model" => h_bitflags_model(r),
             "history_dyn" => h_history_dyn(r),
+            "dims_dyn" => h_dims_dyn(r),
             _ => return false,
         }
         true
